@@ -490,32 +490,37 @@ impl Case {
 }
 
 
+/// a module in the grammar of the Lean models (`AbiGen.parseDeclA`): `(HEAD PREFIX DECL…)`
+pub fn module_sexp(module: &Module, head: &str, prefix: &str) -> String {
+    let mut decls = vec![];
+    for t in &module.types {
+        let ms: Vec<String> = t
+            .methods
+            .iter()
+            .map(|m| {
+                let s = match &m.self_param {
+                    None => "-".to_string(),
+                    Some(s) if !s.by_ref => "(self val)".to_string(),
+                    Some(s) => format!("(self ref {} {})", s.lt.sexp(), if s.mutable { "mut" } else { "imm" }),
+                };
+                let ps: Vec<String> = m.params.iter().map(|(n, t)| format!("({n} {})", t.sexp())).collect();
+                let r = match &m.ret { None => "-".to_string(), Some(t) => t.sexp() };
+                format!("(m {} {} ({}) {})", m.name, s, ps.join(" "), r)
+            })
+            .collect();
+        decls.push(match &t.def {
+            Def::Struct { out, fields } => format!("({} {} ({}) ({}))", if *out { "outstruct" } else { "struct" }, t.name, fields.iter().map(|(n, t)| format!("({n} {})", t.sexp())).collect::<Vec<_>>().join(" "), ms.join(" ")),
+            Def::Opaque => format!("(opaque {} ({}))", t.name, ms.join(" ")),
+            Def::Enum { .. } => format!("(enum {} ({}))", t.name, ms.join(" ")),
+        });
+    }
+    format!("({head} {} {})", if prefix.is_empty() { "\"\"" } else { prefix }, decls.join(" "))
+}
+
 impl Case {
     /// the case in the grammar of the Lean model (`AbiGen.runLine`)
     pub fn sexp(&self) -> String {
-        let mut decls = vec![];
-        for t in &self.module.types {
-            let ms: Vec<String> = t
-                .methods
-                .iter()
-                .map(|m| {
-                    let s = match &m.self_param {
-                        None => "-".to_string(),
-                        Some(s) if !s.by_ref => "(self val)".to_string(),
-                        Some(s) => format!("(self ref {} {})", s.lt.sexp(), if s.mutable { "mut" } else { "imm" }),
-                    };
-                    let ps: Vec<String> = m.params.iter().map(|(n, t)| format!("({n} {})", t.sexp())).collect();
-                    let r = match &m.ret { None => "-".to_string(), Some(t) => t.sexp() };
-                    format!("(m {} {} ({}) {})", m.name, s, ps.join(" "), r)
-                })
-                .collect();
-            decls.push(match &t.def {
-                Def::Struct { out, fields } => format!("({} {} ({}) ({}))", if *out { "outstruct" } else { "struct" }, t.name, fields.iter().map(|(n, t)| format!("({n} {})", t.sexp())).collect::<Vec<_>>().join(" "), ms.join(" ")),
-                Def::Opaque => format!("(opaque {} ({}))", t.name, ms.join(" ")),
-                Def::Enum { .. } => format!("(enum {} ({}))", t.name, ms.join(" ")),
-            });
-        }
-        format!("(c01 {} {})", self.prefix, decls.join(" "))
+        module_sexp(&self.module, "c01", &self.prefix)
     }
 }
 
